@@ -572,3 +572,18 @@ m('c07-with-prec-sign-blind', ['C07'], 'with_prec|get_rounding_term', [
 m('c16-ascii-zero-confusion', ['C16'], 'UNITS', [
   ('src/impl_fmt.rs', "rounder, insig_digit, || trailing_digits.iter().all(|&d| d == b'0')\n            );\n\n            let rounded_digit = insig_data.round_digit(0);", "rounder, insig_digit, || trailing_digits.iter().all(Zero::is_zero)\n            );\n\n            let rounded_digit = insig_data.round_digit(0);")],
   "ASCII bytes tested with the numeric is_zero: the tail flag is never true, ties round up ({:.0} of 0.50 prints 1)")
+# ---- C11 scale bookkeeping
+m('c11-cbrt-residue-adjust-swapped', ['C11'], 'scale-bookkeeping', [
+  ('src/arithmetic/cbrt.rs', """        Ordering::Greater => {
+            new_scale += 1;
+            exp_shift += (3 - remainder) as u64;
+        }""", """        Ordering::Greater => {
+            exp_shift += (3 - remainder) as u64;
+        }""")],
+  'scale not bumped when the shifted scale leaves a positive remainder mod 3: result off by a factor of ten for 2/3 of all scales')
+m('c11-cbrt-residue-wrong-shift', ['C11'], 'scale-bookkeeping', [
+  ('src/arithmetic/cbrt.rs', "            exp_shift += (3 - remainder) as u64;", "            exp_shift += (2 - remainder) as u64;")],
+  'padding one digit short for positive residues')
+m('c11-cbrt-trim-not-applied-to-scale', ['C11'], 'scale-bookkeeping', [
+  ('src/arithmetic/cbrt.rs', "    new_scale -= digits_to_trim as i64;\n", "    new_scale -= digits_to_trim as i64 - 1;\n")],
+  'scale adjusted by one digit too few after trimming')
